@@ -241,8 +241,8 @@ func (fv *FuncVC) evalBuiltin(call *ast.CallExpr, name string, st *State) []Val 
 		d, _, c := fv.declMapHeaps(ks, vs)
 		D, C := fv.getHeap(st, d), fv.getHeap(st, c)
 		had := sx("select", sx("select", D, m.T), k.T)
-		fv.setHeap(st, d, mkIte(mkEq(m.T, "nil"), D, sx("store", D, m.T, sx("store", sx("select", D, m.T), k.T, "false"))))
-		fv.setHeap(st, c, mkIte(mkEq(m.T, "nil"), C, sx("store", C, m.T, sx("-", sx("select", C, m.T), mkIte(had, "1", "0")))))
+		fv.setHeap(st, d, sx("store", D, m.T, sx("store", sx("select", D, m.T), k.T, "false")))
+		fv.setHeap(st, c, sx("store", C, m.T, sx("-", sx("select", C, m.T), mkIte(had, "1", "0"))))
 		return nil
 	case "min", "max":
 		if len(call.Args) == 2 {
@@ -346,7 +346,7 @@ func (fv *FuncVC) evalArgs(call *ast.CallExpr, f *types.Func, st *State) (recv *
 	}
 	params := sig.Params()
 	np := params.Len()
-	if len(call.Args) == 1 && np > 1 {
+	if _, isTuple := fv.typeOf(firstArg(call)).(*types.Tuple); len(call.Args) == 1 && np > 1 && isTuple {
 		// f(g()) with multi-value g
 		vals := fv.evalMulti(call.Args[0], st, np)
 		return recv, vals
@@ -626,7 +626,23 @@ func (fv *FuncVC) callExtern(call *ast.CallExpr, f *types.Func, ex *ExternSpec, 
 		fv.addFact(st, g)
 	}
 	var results []Val
-	if ex.Pure {
+	if ex.Once {
+		if k > 1 {
+			fv.note("extern %s declared 'once' is called more than once", ex.Key)
+		}
+		for i := 0; i < sig.Results().Len(); i++ {
+			rt := sig.Results().At(i).Type()
+			rs := fv.th.sortOf(rt)
+			name := fmt.Sprintf("once$%s$r%d", sanitize(ex.Key), i+1)
+			if k > 1 {
+				name = fv.th.freshName(name)
+			}
+			fv.th.declConst(name, rs)
+			v := Val{name, rs, rt}
+			fv.valueFacts(st, v)
+			results = append(results, v)
+		}
+	} else if ex.Pure {
 		results = fv.pureApp(call, f, ex.Key, recv, args, st)
 	} else {
 		for _, m := range ex.Modifies {
@@ -664,4 +680,11 @@ func (fv *FuncVC) callExtern(call *ast.CallExpr, f *types.Func, ex *ExternSpec, 
 		fv.addFact(st, fv.specBool(c.Expr, sc))
 	}
 	return results
+}
+
+func firstArg(call *ast.CallExpr) ast.Expr {
+	if len(call.Args) == 0 {
+		return nil
+	}
+	return call.Args[0]
 }
